@@ -4,6 +4,7 @@ CONSTANTS
   Vals = {1}
   HwMax = 1
   HwModes = {"refuse"}
+  Excs = {"other"}
   Tables = {"two"}
   Shapes = {"w"}
   Modes = {"clamp"}
@@ -14,6 +15,7 @@ CONSTANTS
   PVals = {1}
   LVals = {0, 1}
   ForbSets = {{}}
+  HookExcs = {"badvalue"}
   Inits = {1}
   Layouts = {11}
 INVARIANT Consistent
